@@ -267,6 +267,9 @@ def run(ctx, rep):
     if not inv_year_rules(facts, rep):
         void.add("C18-INV-YEAR")
     cal_rules(facts, rep)
+    # "a timestamp read from any archive is reported unchanged": both parsers hand (date, time) to from_msdos in that order
+    from rules.C01 import msdos_arg_order
+    msdos_arg_order(facts, rep, "C18-ARGS")
     panic_rule(ctx, rep, "C18-PANIC", facts, is_time_root, void_rules=void)
     rep.floor("C18-PANIC", 10)
     rep.floor("C18-BITS", 10)
